@@ -76,6 +76,10 @@ CHECKS = {
    text="Validation.tla defines the abstract object classes per section and MustReject (the rejection classes the statement names); TLC enumerates every class of every section plus section pairs and all flow-control member x numeric x strategy combinations; each is concretised (1-4 variants) and given to the REAL admission plugin's Validate under recover/watchdog; every accepted object is applied for real (CreateClusterInfo + perturbed Sync; create/update/delete through a real gateway controller and a real limiter server on virtual time, crash-isolated); TLC validates the three clauses (verdict always; MustReject => rejected; accepted => applicable).",
    note="Totality over ALL objects is a Go memory-safety statement on an unbounded type: the spec supplies the finite class product, the verdict is the real code's behaviour (DESIGN section 5).",
    technique="TLC-enumerated object classes run through the real validator and real consumers + TLC trace validation"),
+ "C12": dict(cat="model_checking", design="4/C12",
+   text="AuthCache.tla models hosts, owning clusters, per-cluster answers, the gateway's TTL caches, readiness flips and alias moves; TLC checks 'every decision is an answer of the request's own cluster' on the repaired keying (and refutes per-host keying) and simulates request sequences that alternate hosts with identical tokens / users; they are replayed on the REAL token-review authenticator and access-review authorizer over a stub cluster provider with per-cluster fake clientsets on virtual time; TLC validates every call: reviews only go to the owner, the decision equals an answer the owner gave within the TTL (and the returned identity / reason names the owner), a cluster that cannot be asked yields no authentication / a deny.",
+   note="Stub cluster provider; alias moves extend the quantifier's text.",
+   technique="TLC invariant on the cache model + simulated request sequences replayed on virtual time + TLC trace validation"),
 }
 
 NOT_YET = {}
